@@ -93,8 +93,11 @@ class Service(Attribute):
         # Update service handle
         Attribute.handle.fset(self, new_handle)
 
-        # Update the underlying characteristics
+        # Update the include definitions, then the underlying characteristics
         char_handle = new_handle
+        for inc_service in self.__included_services:
+            inc_service.handle = char_handle + 1
+            char_handle = inc_service.handle
         for characteristic in self.__characteristics:
             characteristic.handle = char_handle + 1
             char_handle = characteristic.end_handle
@@ -180,8 +183,11 @@ class Service(Attribute):
             if characteristic in self.__characteristics:
                 self.__characteristics.remove(characteristic)
 
-        # Update characteristic handles
+        # Update include definitions and characteristic handles
         char_handle = self.handle
+        for inc_service in self.__included_services:
+            inc_service.handle = char_handle + 1
+            char_handle = inc_service.handle
         for charac in self.__characteristics:
             charac.handle = char_handle + 1
             char_handle = charac.end_handle
